@@ -437,7 +437,7 @@ func pickScenario(prop string, seed uint64) *Scenario {
 	tot := 0
 	for _, s := range ss {
 		if s.Every > 0 {
-			if seed%uint64(s.Every) == uint64(s.Offset) {
+			if (seed%1000000)%uint64(s.Every) == uint64(s.Offset) { // position within the seed block, whatever VERIF_SEED is
 				return s
 			}
 			continue
